@@ -157,7 +157,7 @@ class RealCtx(BaseCtx):
     def fail(self, label, detail=None):
         self.failed.append(label)
 
-    def prove_all(self, items):
+    def prove_all(self, items, lemma=False):
         ok = True
         for c, label in items:
             if not bool(c):
@@ -251,8 +251,8 @@ class SymCtx(BaseCtx):
     def fail(self, label, detail=None):
         self.E.fail(label, detail)
 
-    def prove_all(self, items):
-        return self.E.prove_all(items)
+    def prove_all(self, items, lemma=False):
+        return self.E.prove_all(items, lemma)
 
     def reachable(self):
         self.E.reachable()
